@@ -107,9 +107,18 @@ fn compile(req: &Value) -> Value {
     let out_dir = req.get("out_dir").and_then(|x| x.as_str()).map(PathBuf::from);
     let out_dir_actions = req.get("out_dir_actions").and_then(|x| x.as_str()).map(PathBuf::from);
     let sv = req["settings"].clone();
-    let root = grammar.parent().unwrap().to_path_buf();
+    // root dir: the grammar's directory unless the request says otherwise ("root_dir": null
+    // leaves it unset, as plain rcomp does; a string sets it as given)
+    let root = match req.get("root_dir") {
+        None => Some(grammar.parent().unwrap().to_path_buf()),
+        Some(Value::String(s)) => Some(PathBuf::from(s)),
+        Some(_) => None,
+    };
     let r = catch(move || {
-        let st = settings_from(&sv, out_dir, out_dir_actions).root_dir(root);
+        let mut st = settings_from(&sv, out_dir, out_dir_actions);
+        if let Some(root) = root {
+            st = st.root_dir(root);
+        }
         st.process_grammar(&grammar)
     });
     match r {
